@@ -151,6 +151,7 @@ def trusted(text):
     TRUSTED.append(text)
 
 
+RENAMED = {}
 ON_CONSTRUCT = {}      # class -> Clause: defining equations of ghost functions, assumed for every newly constructed instance
 
 
@@ -214,6 +215,11 @@ def load_contracts():
         mod = importlib.util.module_from_spec(spec)
         sys.modules[name] = mod
         spec.loader.exec_module(mod)
+    try:                                    # contracts follow pure renamings of local variables (pyvc.renames)
+        from . import renames, src as _src
+        RENAMED.update(renames.apply(CONTRACTS, _src.FUNCS, Clause))
+    except Exception as e:                  # never fatal: without it a renamed local makes the function undecided
+        RENAMED["error"] = str(e)
     bad = refinement_frame_problems()
     if bad:
         raise RuntimeError("refinement widens the frame of its abstract contract: " + "; ".join(bad))
